@@ -1,15 +1,18 @@
 (* C05 - Completion: no deadlock and no internal scheduling error.
    Proved: (a) safety - the internal errors "cannot progress backwards" and "has already progressed" are unreachable
    from the initial state of every scenario with static_ok tables, for every behaviour and interleaving.
-   (b) progress (deadlock-freedom) for flat scenarios (no groups): whenever nothing is in flight and some simulator is
-   not done, a START or BEGIN event is accepted (C05_progress_flat; the premise flat_certified is decided per scenario
-   by the extracted checker).
-   Not proved (C05_partial): progress for scenarios with groups, and (c) termination; they are checked on the
+   (b) progress (deadlock-freedom) for flat scenarios and for scenarios whose simulators all sit in one group: whenever
+   nothing is in flight and some simulator is not done, a START or BEGIN event (or, with groups, the loop guard's abort)
+   is accepted (C05_progress_flat, C05_progress_one_group; the premises flat_certified / uniform_certified are decided
+   per scenario by the extracted checker).
+   (c) finitely many steps: in every run every simulator begins at most until * max_loop_iterations^(depth-1) steps
+   (C05_finitely_many_steps).
+   Not proved (C05_partial): progress for scenarios whose simulators sit in different groups; they are checked on the
    implementation by the quiescence test of the trace validation (deadlock detector) and on the model by "no enabled
    BEGIN at quiescence".  For non-convex group scenarios progress is false under lazy stepping (known finding F21). *)
 From Coq Require Import ZArith List Bool Arith.
 Import ListNotations.
-From MV Require Import Time.Spec Sched.Timing Sched.Inv Sched.Init Sched.Wle Sched.Main Sched.Guards Sched.Final Sched.Live Sched.Progress Sched.Quiet Static.Groups Static.Connect Static.Build Sched.Plane Sched.Link Sched.Certify.
+From MV Require Import Time.Spec Sched.Timing Sched.Inv Sched.Init Sched.Wle Sched.Main Sched.Guards Sched.Final Sched.Live Sched.Progress Sched.Quiet Sched.NoLost Sched.Bound Static.Groups Static.Connect Static.Build Sched.Plane Sched.Link Sched.Certify.
 Open Scope Z_scope.
 
 Theorem C05_partial_never_progresses_backwards : forall st, static_ok st -> forall s e i,
@@ -89,3 +92,24 @@ Example C05_one_group_nonvacuous :
   | Prepared st dt t anc => check_static sc t anc = true /\ uniform_certified st = true /\ depth st 0 = 2%nat
   | _ => False end.
 Proof. vm_compute. auto. Qed.
+
+(* (c) run() performs finitely many steps: every simulator begins at most until * max_loop_iterations^(depth-1) steps,
+   whatever the simulators reply and however their answers interleave *)
+Theorem C05_finitely_many_steps : forall sc t atab,
+  check_static sc t atab = true -> check_static2 sc t = true -> check_bound t = true ->
+  init_before_untilb (static_of sc t atab) = true ->
+  let st := static_of sc t atab in
+  forall evs l i, (i < nsims st)%nat -> run st (init_state st) evs = Ok l ->
+  (length (begun i evs) <= Z.to_nat (until st) * Z.to_nat (maxloop st) ^ (depth st i - 1))%nat.
+Proof. exact certified_bounded_steps. Qed.
+Print Assumptions C05_finitely_many_steps.
+
+Example C05_bound_nonvacuous :
+  let f := mkF true true false true false 0 false false true in
+  let fw := mkF true true false true false 0 true false true in
+  let sc := mkScen [None; Some 0%nat] (fun _ => 1%nat) (fun _ => Hybrid) 2
+                   [mkConn 0 1 3 1 f false 0; mkConn 1 0 3 1 fw false 0] [] 5 100 true true in
+  match prepare 100 sc with
+  | Prepared st dt t anc => check_static sc t anc && check_static2 sc t && check_bound t && init_before_untilb (static_of sc t anc) = true
+  | _ => False end.
+Proof. vm_compute. reflexivity. Qed.
